@@ -11,6 +11,7 @@ import (
 	"github.com/thushan/olla/internal/config"
 	"github.com/thushan/olla/internal/core/domain"
 	"github.com/thushan/olla/internal/util"
+	"github.com/thushan/olla/internal/verifhook"
 )
 
 const (
@@ -62,6 +63,9 @@ func (r *StaticEndpointRepository) GetAll(ctx context.Context) ([]*domain.Endpoi
 		endpointCopy := *endpoint
 		endpoints = append(endpoints, &endpointCopy)
 	}
+	if verifhook.Enabled {
+		endpoints = verifOrder(endpoints)
+	}
 	return endpoints, nil
 }
 
@@ -76,6 +80,9 @@ func (r *StaticEndpointRepository) GetHealthy(ctx context.Context) ([]*domain.En
 			healthyCopy := *endpoint
 			healthy = append(healthy, &healthyCopy)
 		}
+	}
+	if verifhook.Enabled {
+		healthy = verifOrder(healthy)
 	}
 
 	return healthy, nil
@@ -92,6 +99,9 @@ func (r *StaticEndpointRepository) GetRoutable(ctx context.Context) ([]*domain.E
 			routableCopy := *endpoint
 			routable = append(routable, &routableCopy)
 		}
+	}
+	if verifhook.Enabled {
+		routable = verifOrder(routable)
 	}
 
 	return routable, nil
